@@ -37,6 +37,7 @@
 
 #![cfg_attr(feature = "nightly", feature(allocator_api))]
 #![cfg_attr(kani, recursion_limit = "512")]
+#![cfg_attr(all(kani, not(feature = "nightly")), feature(allocator_api))]
 
 mod cache;
 mod eviction;
